@@ -45,6 +45,12 @@ def run(ctx):
         n = max(len(d) for d in sess)
         specs.append(dict(session=sess, fn="heat", emb=embs[i % len(embs)], sigma_t=sigma_t, anchor=0, aux=["W"],
                           zerotol=Fraction(n, 10 ** 6) / Fraction(math.sqrt(8 * math.pi * sigma_t))))
+    # argument objects: fresh float arrays per call, or ONE set of float64 arrays / integer-dtype arrays / nested lists (of floats, of ints)
+    # shared by all calls of the session; half of the shared sessions are then overwritten in place with doubled coordinates and evaluated
+    # again (a value remembered per argument OBJECT instead of per argument VALUE shows there)
+    for i, sp in enumerate(specs):
+        sp["container"] = [None, "array", "int", "list", "intlist", "array", "int"][i % 7]
+        sp["edit"] = int(bool(sp["container"]) and i % 2 == 0)
     laws.run_sessions(ctx, specs, "V")
 
 
